@@ -376,6 +376,30 @@ def bounded(run):
     from abacusnbody.analysis.tsc import partition_parallel
     for pos, npart, box, coord, w in cs[:40]:
         P = np.asarray(pos, dtype=np.float64).reshape(-1, 3)
+        # without weights: stripes ordered along the chosen coordinate, a permutation of the input
+        ps0, starts0, ws0 = partition_parallel(P, npart, box, weights=None, coord=coord, nthread=2, sort=True)
+        nev += 1
+        for s in range(npart):
+            seg = ps0[starts0[s]:starts0[s + 1], coord]
+            if np.any(np.diff(seg) < 0):
+                run.bounded_violation('partition_parallel sort=True stripe not ordered', dict(pos=pos, npartition=npart, coord=coord, weights=None),
+                                      f'unweighted, coord={coord}, stripe {s}: {seg.tolist()}')
+                return
+        if ws0 is not None or sorted(map(tuple, ps0.tolist())) != sorted(map(tuple, P.tolist())):
+            run.bounded_violation('partition_parallel sort=True not a permutation', dict(pos=pos, npartition=npart, weights=None), 'unweighted: multiset differs')
+            return
+        # weights of another dtype than the positions keep their dtype and their values
+        for pdt, wdt in ((np.float32, np.float64), (np.float64, np.float32), (np.float32, np.int64)):
+            W = (np.arange(len(P)) * 16777217 + 3).astype(wdt) if wdt == np.int64 else (np.asarray(w, dtype=np.float64) * (1 + 2.0 ** -40)).astype(wdt)
+            Pd = P.astype(pdt)
+            psd, std, wsd = partition_parallel(Pd, npart, pdt(box), weights=W, coord=coord, nthread=2)
+            nev += 1
+            if wsd is None or wsd.dtype != W.dtype or sorted(tuple(r) + (x,) for r, x in zip(psd.tolist(), wsd.tolist())) != \
+                    sorted(tuple(r) + (x,) for r, x in zip(Pd.tolist(), W.tolist())):
+                run.bounded_violation('partition_parallel changes the weights', dict(pos=pos, npartition=npart, pos_dtype=np.dtype(pdt).name, weight_dtype=np.dtype(wdt).name),
+                                      f'weights of dtype {np.dtype(wdt).name} with positions of dtype {np.dtype(pdt).name}: returned dtype '
+                                      f'{None if wsd is None else wsd.dtype}, (position, weight) rows are not a permutation of the input')
+                return
         for nt in (1, 3):
             ps, starts, ws = partition_parallel(P, npart, box, weights=np.asarray(w), coord=coord, nthread=nt, sort=True)
             nev += 1
